@@ -165,6 +165,40 @@ func cliDiff(a, b *CLIOutcome) (targets []string, diffs map[string][]string) {
 	return
 }
 
+// staleVariant derives stale content from what the generator will write:
+// longer, same length with a differing tail / head / middle, or shorter.
+func staleVariant(data []byte, variant int) []byte {
+	flip := func(b []byte, i int) {
+		if i >= 0 && i < len(b) {
+			if b[i] == 'x' {
+				b[i] = 'y'
+			} else {
+				b[i] = 'x'
+			}
+		}
+	}
+	switch variant % 5 {
+	case 0:
+		return append(append([]byte("STALE STALE STALE\n"), data...), []byte("\ntrailing stale bytes that must disappear\n")...)
+	case 1: // same length, only the last bytes differ
+		b := append([]byte{}, data...)
+		flip(b, len(b)-2)
+		flip(b, len(b)-1)
+		return b
+	case 2: // same length, only the first bytes differ
+		b := append([]byte{}, data...)
+		flip(b, 0)
+		flip(b, 1)
+		return b
+	case 3: // same length, one byte in the middle differs
+		b := append([]byte{}, data...)
+		flip(b, len(b)/2)
+		return b
+	default: // shorter
+		return append([]byte{}, data[:len(data)/2]...)
+	}
+}
+
 // staleDisk: a re-run into directories that already hold newer files of the
 // same names (left by an earlier compilation of something else): the same DSL
 // and flags must still yield the same bytes.
@@ -177,8 +211,8 @@ func staleDisk(text string, ref *CLIOutcome) []DiskEntry {
 		}
 	}
 	sort.Strings(ps)
-	for _, p := range ps {
-		disk = append(disk, DiskEntry{Path: p, Kind: "file", Data: append([]byte("// left over from an earlier run\n"), ref.After[p].Data...)})
+	for k, p := range ps {
+		disk = append(disk, DiskEntry{Path: p, Kind: "file", Data: staleVariant(ref.After[p].Data, k+len(ps))})
 	}
 	return disk
 }
@@ -196,7 +230,10 @@ func c13CLI(c *Ctx, n int) error {
 	return ParallelFor(n, c.Workers, func(i int) error {
 		seed := SubSeed(c.Seed, "c13cli", i)
 		r := NewRng(seed)
-		prog := GenProg(seed)
+		prog := GenProgSized(seed, i%12 == 5)
+		if i%12 == 5 {
+			c.ev.Fire("big_program", 1)
+		}
 		text := prog.Render()
 		argv := compileArgv(AllTargets, r.Chance(1, 2), r.Chance(1, 2), r.Chance(1, 3))
 		mkWorld := func(cfg SchedConfig) *CLIWorld {
